@@ -21,14 +21,13 @@ def main():
             log(f'[setup] BAD {b}')
         print('setup: reference model disagrees with the canonical vectors')
         return 2
-    from . import selftest_engines
+    from . import kanirun, kernels, selftest_engines
+    kanirun.warm()
+    build.build_driver()
     rc = selftest_engines.main()
     if rc:
         return rc
-    try:
-        from . import kanirun
-        kanirun.warm()
-    except ImportError:
-        pass
+    # warm the kernels crate (pdl-compiler under Kani) and the native replay target dir
+    kernels.run(['c12_source_location_empty_table'])
     log(f'[setup] done in {time.time() - t0:.0f}s')
     return 0
